@@ -75,6 +75,23 @@ def gen(tier, seed, shard, nshards):
             rp = _gc.ring_pdag(("C09", seed, "ring", k))
             if G.directed_part_acyclic(rp):
                 yield "sampled-pdag", {"masks": rp}
+    # dense DAGs without v-structures on 5 nodes, every edge made undirected except those at one node: the orientation has to travel
+    # through several triangles (the Meek fix-point needs several sweeps, in an order that depends on the labels)
+    k = 0
+    for code in G.all_dag_codes(5):
+        d5 = G.dag_from_code3(5, code)
+        if G.n_edges(d5) >= 7 and not G.vstructures(d5):
+            if k % nshards == shard:
+                rng = util.rng_for("C09", seed, "moral5", code)
+                for t in (rng.choice(5, 1 if tier == "quick" else 5, replace=False)):
+                    t = int(t)
+                    pd5 = list(d5)
+                    for a in range(5):
+                        for b in G.bits(d5[a]):
+                            if a != t and b != t:
+                                pd5[b] |= 1 << a
+                    yield "sampled-pdag", {"masks": pd5}
+            k += 1
     for k in range(N[tier]):
         if k % nshards == shard:
             yield "sampled-pdag", {"masks": _gc.sampled_pdag(("C09", seed, "sp", k), 6, 12, max_und=9, max_edges=12)}
